@@ -5,8 +5,10 @@ import (
 	"fmt"
 	"io"
 	"io/fs"
+	"path"
 	"regexp"
 	"sort"
+	"strconv"
 	"strings"
 	"testing/fstest"
 
@@ -391,6 +393,20 @@ func propC19(c *ctx) error {
 		if gotErr == "" {
 			if _, err := m.GetTemplate("no/such/name.html"); !errors.Is(err, html.ErrTplNotFound) {
 				res.violate(cs, "not-found error", fmt.Sprint(err), "looking up an unregistered name does not fail with the not-found error")
+			}
+			// near-miss spellings of registered names are unregistered names too: the lookup is by the exact name
+			for _, n := range wantTpls {
+				for _, v := range []string{"/" + n, "./" + n, n + "/", strings.Replace(n, "/", "//", 1), "x/../" + n, n + " ", " " + n,
+					strings.ToUpper(n), strings.TrimSuffix(n, ".html"), n + ".html", strings.Replace(n, "/", "\\", 1), n + "\x00", path.Base(n), "a/" + n} {
+					if v == n || reg[v] {
+						continue
+					}
+					res.count("near_miss_lookups")
+					if t, err := m.GetTemplate(v); !errors.Is(err, html.ErrTplNotFound) || t != nil {
+						res.violate(cs, "not-found error for "+strconv.Quote(v), fmt.Sprint(t != nil, err), "looking up an unregistered name (a near-miss spelling of a registered one) does not fail with the not-found error")
+						break
+					}
+				}
 			}
 			if err := m.Add(firstOr(wantTpls, "fresh-name"), strings.NewReader("x")); len(wantTpls) > 0 && !errors.Is(err, html.ErrDuplicatedTplName) {
 				res.violate(cs, "duplicate-name error", fmt.Sprint(err), "a second registration of a name does not fail with the duplicate-name error")
